@@ -1,5 +1,9 @@
-import SaoVerif.Generated.Skeleton
-import SaoVerif.Spec.SkeletonExpected
+import SaoVerif.Skeleton.x_did_keeper_msg_server_binding_go
+import SaoVerif.Skeleton.x_did_keeper_msg_server_update_go
+import SaoVerif.Skeleton.x_did_keeper_msg_server_update_payment_address_go
+import SaoVerif.Skeleton.x_did_keeper_did_management_go
+import SaoVerif.Skeleton.x_did_keeper_utils_go
+import SaoVerif.Skeleton.x_did_types_genesis_go
 /-!
 # C17 — the decision logic of the anchor files is the one that was modelled
 
@@ -7,9 +11,10 @@ The extractor (harness/cmd/extract) regenerates, on every run and from the tree 
 function: its branching constructs in source order, each guard with its condition and with how its branch ends (`return <err>`,
 `continue`, `panic`, …). The hand-written model mirrors exactly these decisions (its `…Pre` / `…Guards` functions are the
 guards of the handlers, in their order). This theorem says that for the files the property is anchored in
-(x/did/keeper/msg_server_binding.go, x/did/keeper/msg_server_update.go, x/did/keeper/msg_server_update_payment_address.go, x/did/keeper/did_management.go, x/did/keeper/utils.go, x/did/types/genesis.go) the regenerated skeletons equal the ones the model was written against. A change of a guard, of its
-order, or a new or removed branch breaks it: the correspondence then has to be re-established (the check searches the
-histories for a failing input and reports the violation either way).
+(x/did/keeper/msg_server_binding.go, x/did/keeper/msg_server_update.go, x/did/keeper/msg_server_update_payment_address.go, x/did/keeper/did_management.go, x/did/keeper/utils.go, x/did/types/genesis.go) the regenerated skeletons equal the ones the model was written against
+(one kernel-evaluated equality per source file, `SaoVerif/Skeleton/<file>.lean`). A change of a guard, of its order, or a new or
+removed branch breaks it: the correspondence then has to be re-established (the check searches the histories for a failing
+input and reports the violation either way).
 -/
 namespace SaoVerif
 
@@ -26,6 +31,6 @@ theorem C17_decision_skeleton_as_modelled :
      Expected.Skel.x_did_keeper_did_management_go,
      Expected.Skel.x_did_keeper_utils_go,
      Expected.Skel.x_did_types_genesis_go] := by
-  decide +kernel
+  rw [skel_x_did_keeper_msg_server_binding_go, skel_x_did_keeper_msg_server_update_go, skel_x_did_keeper_msg_server_update_payment_address_go, skel_x_did_keeper_did_management_go, skel_x_did_keeper_utils_go, skel_x_did_types_genesis_go]
 
 end SaoVerif
